@@ -405,6 +405,21 @@ class Ctx:
             json.dump(ev, f, indent=1, default=str)
 
 
+def build_generated(ctx, files, targets, n_obligations):
+    """Regenerated tables (DESIGN 2.3b).  `files`: {path relative to lean/: text} written only when changed;
+    `targets`: the Generated/GenProps modules; `n_obligations`: how many obligations they state.
+    A failure here is caused by what /repo says now, so it is recorded as a broken obligation
+    (then: directed search, VIOLATION), never as an infrastructure error."""
+    for rel, text in files.items():
+        write_if_changed(os.path.join(LEAN, rel), text)
+    ctx.gen_obligations += n_obligations
+    ok, out = lake_build(targets)
+    if not ok:
+        errs = [l for l in out.splitlines() if "error" in l][:12]
+        ctx.broken_obligations.append({"targets": list(targets), "errors": errs, "output_tail": out[-2500:]})
+    return ok
+
+
 def prepare_lean(ctx, prop, imports, theorems, targets=None, generated=None):
     """regenerate tables (if any), build, audit.  Hand-written build failure = Infra;
     a failing *generated* obligation is recorded in ctx.broken_obligations."""
@@ -414,6 +429,13 @@ def prepare_lean(ctx, prop, imports, theorems, targets=None, generated=None):
     if not ok:
         raise Infra("lake build failed:\n" + out[-4000:])
     ax = axiom_audit(prop, imports, theorems)
+    if ctx.tier == "thorough" and not os.environ.get("VERIF_SKIP_LEANCHECKER"):
+        t1 = time.time()
+        p = subprocess.run(["lake", "env", "leanchecker"] + list(imports), cwd=LEAN, stdout=subprocess.PIPE,
+                           stderr=subprocess.STDOUT, text=True)
+        if p.returncode != 0:
+            raise Infra("leanchecker rejected %r:\n%s" % (imports, p.stdout[-3000:]))
+        ctx.notes["leanchecker"] = "replayed %s in %.0fs: ok" % (" ".join(imports), time.time() - t1)
     for t in theorems:
         hit = [k for k in ax if k == t or k.endswith("." + t) or t.endswith("." + k)]
         ctx.theorems[t] = ax[hit[0]] if hit else []
